@@ -149,6 +149,8 @@ fn powif_pdnum(a: f64, b: &NInt) -> NNum {
 fn pow_big_ints(a: &NInt, b: &NInt) -> NNum {
     match a.pow_maybe_recip(b) {
         (false, r) => NNum::Int(r),
+        // 0 ^ (negative) is 1/0: fall back to float infinity like `/` does instead of panicking
+        (true, r) if r.is_zero() => NNum::Float(f64::INFINITY),
         (true, r) => NNum::from(BigRational::from(r.into_bigint()).recip()),
     }
 }
@@ -364,6 +366,9 @@ impl NNum {
             }
             (NNum::Int(a), NNum::Float(b)) => powf_pdnum(nint_to_f64_or_inf(a), *b),
 
+            (NNum::Rational(a), NNum::Int(b)) if a.is_zero() && b.is_negative() => {
+                NNum::Float(f64::INFINITY)
+            }
             (NNum::Rational(a), NNum::Int(b)) => NNum::from(Pow::pow(&**a, &*b.to_bigint())),
             (NNum::Rational(a), NNum::Rational(b)) => {
                 powf_pdnum(rational_to_f64_or_inf(a), rational_to_f64_or_inf(b))
